@@ -21,7 +21,7 @@ PROPOSED_FINDINGS = [
   "witness": {"op": "oid_get1 9080808000", "c_output": "ok 0 5"},
   "matcher": "op in {oid_get1, oid_get, roid_get} and some sub-identifier of the octet string denotes a value >= 2^32",
   "lean_counterexample": "Asn1c.Props.C17.getSingleArc_overflow_wraps_cex"},
- {"id": "F31", "property": "C17", "status": "known",
+ {"id": "F60", "property": "C17", "status": "known",
   "what": "asn_GT2time*/asn_UT2time treat the valid instant time_t -1 (1969-12-31 23:59:59Z) as an error: "
           "`if(tloc == -1) { errno = EINVAL; return -1; }`, so asn_time2GT(-1) does not convert back and "
           "GeneralizedTime_constraint rejects 19691231235959Z",
@@ -372,8 +372,9 @@ def run(ctx):
     ctx.cov["predicate"]["unexplained_failures"] = len(unexplained)
 
 def note_dis(ctx, name, dis):
+    tz = name[name.index("[") + 1:-1] if "[" in name else None
     for i, l, c, m in dis[:30]:
-        ctx.broken.append({"kind": "correspondence", "name": name, "op": l, "c": c, "model": m})
+        ctx.broken.append({"kind": "correspondence", "name": name, "op": l + (" TZ=" + tz if tz else ""), "c": c, "model": m})
     if dis:
         ctx.log(f"{name} correspondence: {len(dis)} disagreements, first: {dis[0][1:]}")
 
@@ -595,7 +596,7 @@ def run_time(ctx, drv, pfail):
                 if orc is None: continue
                 t, fr = orc
                 if not c.startswith("ok "):
-                    pfail.append((l + " TZ=" + tz, c, f"valid time text must convert (to {t})", "F31" if t == -1 else None)); continue
+                    pfail.append((l + " TZ=" + tz, c, f"valid time text must convert (to {t})", "F60" if t == -1 else None)); continue
                 got = int(c.split()[1])
                 if got != t: pfail.append((l + " TZ=" + tz, c, f"expected time {t}", None)); continue
                 if op == "GT2t":
@@ -615,7 +616,7 @@ def run_time(ctx, drv, pfail):
                 nP += 1
                 if c != m:
                     nd += 1
-                    if nd <= 10: ctx.broken.append({"kind": "correspondence", "name": "time-roundtrip", "op": l2, "c": c, "model": m, "tz": tz})
+                    if nd <= 10: ctx.broken.append({"kind": "correspondence", "name": "time-roundtrip", "op": l2 + " TZ=" + tz, "c": c, "model": m})
                 y = civil(t)[0]
                 if kind == "UT" and not (1960 <= y <= 2059):
                     # outside the two-digit-year window the value must come back shifted by whole centuries into 1960..2059
@@ -623,10 +624,10 @@ def run_time(ctx, drv, pfail):
                     if (c_[1], c_[2]) == (2, 29) and not (y2 % 4 == 0 and (y2 % 100 != 0 or y2 % 400 == 0)):
                         continue       # Feb 29 of a year whose image in the window is not a leap year
                     t2 = days_from_civil(y2, c_[1], c_[2]) * 86400 + c_[3] * 3600 + c_[4] * 60 + c_[5]
-                    if not (c or "").startswith(f"ok {t2} "): pfail.append((l + " ; " + l2, c, f"window image {t2} expected", "F31" if t2 == -1 else None))
+                    if not (c or "").startswith(f"ok {t2} "): pfail.append((l + " ; " + l2, c, f"window image {t2} expected", "F60" if t2 == -1 else None))
                     continue
                 if c is None or not c.startswith(f"ok {t} "):
-                    pfail.append((l + " ; " + l2, c, f"round trip must return {t}", "F31" if t == -1 else None)); continue
+                    pfail.append((l + " ; " + l2, c, f"round trip must return {t}", "F60" if t == -1 else None)); continue
                 if kind == "GT" and (0 < fv < 10 ** fd):
                     gfv, gfd = int(c.split()[2]), int(c.split()[3])
                     efd = min(fd, 9); efv = fv // 10 ** (fd - efd)
@@ -673,7 +674,7 @@ def run_time(ctx, drv, pfail):
             nP += 1
             t = orc[0] - off
             if not c.startswith(f"ok {t} "):
-                pfail.append((l + " TZ=" + tz, c, f"local time text in zone {off:+d}s must give {t}", "F31" if t == -1 else None))
+                pfail.append((l + " TZ=" + tz, c, f"local time text in zone {off:+d}s must give {t}", "F60" if t == -1 else None))
     ctx.cov["distribution"]["time_points"] = len(times)
     ctx.cov["predicate"]["time"] = {"cases": nP, "failures": len(pfail) - nP0}
 
@@ -683,9 +684,12 @@ def replay(ctx, path):
     ctx.lean()
     ops = [r["op"]] if "op" in r else [b["op"] for b in r.get("broken", []) if "op" in b]
     for o in ops:
-        tz = None
-        if " TZ=" in o: o, tz = o.rsplit(" TZ=", 1)
+        parts, tz = [], None
         for part in o.split(" ; "):
+            if " TZ=" in part: part, tz = part.rsplit(" TZ=", 1)
+            parts.append(part)
+        tz = tz or r.get("tz")
+        for part in parts:
             c, _ = ctx.run_c_bisect(drv, [part], env={"TZ": tz} if tz else None)
             rc, m, _ = ctx.run_lines(build.model_exe(), [part])
             print("replay:", part, "| TZ:", tz, "| C:", c[0], "| model:", m[0])
